@@ -589,6 +589,7 @@ def normalize(tree, modname):
         known_funcs = set(ref["functions"])
         for q, func in function_table(tree, modname).items():
             if q in known_funcs:
+                n += inline.unroll_literal_loops(func, set(locs.get(q, [])))
                 n += inline.inline_temporaries(func, set(locs.get(q, [])))
                 n += inline.inline_block_temporaries(
                     func, set(locs.get(q, [])))
